@@ -62,6 +62,13 @@ class NsWorld(World):
         for i in range(1, 8):
             (other / str(i)).write_bytes(make_msg(500 + i, extra=[f"X-Decoy: {DECOY}"]))
         (other / ".mh_sequences").write_text("unseen: 1-7\n")
+        # a sibling of the mail directory whose name starts with the mail
+        # directory's name (a string-prefix test takes it for "inside")
+        sib = self.maildir.parent / (self.maildir.name + ".old") / "inbox"
+        sib.mkdir(parents=True, exist_ok=True)
+        for i in range(1, 8):
+            (sib / str(i)).write_bytes(make_msg(600 + i, extra=[f"X-Decoy: {DECOY}"]))
+        (sib / ".mh_sequences").write_text("unseen: 1-7\n")
         (self.tmp / "elsewhere").mkdir(exist_ok=True)
         (self.tmp / "elsewhere" / "secret.txt").write_text(DECOY)
 
@@ -160,6 +167,35 @@ async def run_history(w: NsWorld, steps, events):
         events.append(ev)
 
 
+def expand_env(nm, w):
+    """Probe names may contain components that stand for places of the jail the
+    run is in: "@sib" the sibling directory sharing the mail directory's name
+    as a prefix, "@abs:<rel>" the components of the absolute path of
+    <jail>/<rel>.  The expanded name is what is sent and what TLC classifies."""
+    comps = []
+    for c in nm["comps"]:
+        if c == "@sib":
+            comps.append(w.maildir.name + ".old")
+        elif c.startswith("@abs:"):
+            comps.extend(x for x in str(w.tmp / c[5:]).split("/") if x)
+        else:
+            comps.append(c)
+    return {"slashes": nm["slashes"], "comps": comps}
+
+
+# names that only mean something in the jail of the run (all slots, all encodings)
+ENV_NAMES = [
+    {"slashes": 1, "comps": ["@abs:elsewhere", "evil"]},
+    {"slashes": 2, "comps": ["@abs:elsewhere", "evil"]},
+    {"slashes": 1, "comps": ["@abs:other/Mail/inbox"]},
+    {"slashes": 1, "comps": ["@abs:user", "@sib", "inbox"]},
+    {"slashes": 0, "comps": ["..", "@sib", "inbox"]},
+    {"slashes": 0, "comps": ["..", "@sib", "new"]},
+    {"slashes": 0, "comps": ["a", "..", "..", "@sib", "inbox"]},
+    {"slashes": 0, "comps": ["..", "..", "other", "Mail", "inbox"]},
+    {"slashes": 0, "comps": ["..", "..", "elsewhere", "evil"]},
+]
+
 SLOTS = ["SELECT", "EXAMINE", "CREATE", "DELETE", "RENAMESRC", "RENAMEDST", "SUBSCRIBE", "UNSUBSCRIBE",
          "STATUS", "APPEND", "COPY", "MOVE", "LISTREF", "LISTPAT", "LSUBREF"]
 
@@ -190,6 +226,7 @@ async def run_probes(w: NsWorld, probes, events):
     events.append(dict(blank("Init"), tree=w.tree()))
     before = w.outside_snapshot()
     for slot, nm, enc in probes:
+        nm = expand_env(nm, w)
         s = w.sessions["A"]
         if s.closed or s.task.done():
             await w.open("A")
